@@ -2,9 +2,11 @@ mod astu;
 mod bcv;
 mod corpus;
 mod fw;
+mod gproc;
 mod hval;
 mod props;
 mod qrun;
+mod sim;
 
 use fw::*;
 
